@@ -263,6 +263,32 @@ def expand_fn(args, sections, unit_file, out, stats):
     fn = src.find_fn(name, opts.get("in"))
     ed = Edits(src, fn.start, fn.body_close)
     label = (opts.get("in", "") + "::" if opts.get("in") else "") + name
+    if "stub" in flags:
+        # assumed contract: only the header is taken from the repo; the body is NOT verified in this unit
+        ed = Edits(src, fn.start, fn.body_open)
+        if "ret" in opts:
+            span = fn.header_ret_span()
+            if span is None:
+                raise ExtractError(f"{relpath}: fn {name} has no return type to name")
+            a, b = span
+            ed.replace(a, b, f" ({opts['ret']}: {src.text[a:b].strip()}) ", ("rule", "R1-ret", src.line_of(a)))
+        if "mutself" in flags:
+            s_ = [k for k in src.sig if fn.k_name < k < fn.k_open]
+            for i_ in range(len(s_) - 1):
+                if src.tt(s_[i_]) == "mut" and src.tt(s_[i_ + 1]) == "self":
+                    ed.replace(src.toks[s_[i_]][1], src.toks[s_[i_]][2], "", ("rule", "R4", src.line_of(src.toks[s_[i_]][1])))
+        out.add("#[verifier::external_body]\n", "rule", "stub", src.line_of(fn.start))
+        for kind, arg, text, uline in sections:
+            if kind == "spec":
+                ed.insert(fn.body_open, "\n" + text, ("contract", unit_file, uline + 1))
+            elif kind != "attr":
+                pass
+        ed.emit(out)
+        out.add("{ unimplemented!() }\n", "rule", "stub", src.line_of(fn.start))
+        stats.functions.append({"fn": label, "file": relpath, "lines": [src.line_of(fn.start), src.line_of(fn.body_close - 1)],
+                                "sections": [{"kind": "attr", "arg": "#[verifier::external_body] (stub: contract assumed here)", "unit_line": 0, "text": ""}],
+                                "stub": True})
+        return
     finfo = {"fn": label, "file": relpath, "lines": [src.line_of(fn.start), src.line_of(fn.body_close - 1)],
              "sections": []}
     # rename
@@ -534,7 +560,7 @@ def expand_unit(unit_path, stats=None):
             cur = None
             while i < len(lines) and lines[i].strip() != "//@end":
                 s2 = lines[i].strip()
-                if s2.startswith("//@"):
+                if s2.startswith("//@") and not s2.startswith("//@@"):
                     if cur:
                         sections.append(cur)
                     body = s2[3:]
@@ -558,7 +584,12 @@ def expand_unit(unit_path, stats=None):
                 sections.append(cur)
             if i >= len(lines):
                 raise ExtractError(f"{unit_file}: //@fn without //@end")
-            expand_fn(args, [tuple(s) for s in sections], unit_file, out, stats)
+            resolved = []
+            for kind_, arg_, text_, ln_ in sections:
+                text_ = re.sub(r"(?m)^[ \t]*//@@include[ \t]+(\S+)[ \t]*$",
+                               lambda m: open(os.path.join(VERIF, m.group(1)), encoding="utf-8").read().rstrip("\n"), text_)
+                resolved.append((kind_, arg_, text_, ln_))
+            expand_fn(args, resolved, unit_file, out, stats)
             i += 1
         else:
             out.add(ln + "\n", "unit", unit_file, i + 1)
